@@ -701,7 +701,14 @@ impl<'r> Lowerer<'r> {
             .map(|a| {
                 let ty = self.type_info.type_of(a);
                 let ty = self.type_info.convert(&ty);
-                (self.expr(a), ty)
+                let val = self.expr(a);
+
+                // Materialize every argument before lowering the next one.
+                // `expr` can return a value that is only evaluated once it
+                // is assigned (e.g. a function call), which would otherwise
+                // be evaluated after the effects nested in later arguments.
+                let var = self.assign_to_var(val, ty);
+                (Value::Move(var), ty)
             })
             .collect();
         self.make_enum(ty, variant, &arguments)
